@@ -164,6 +164,23 @@ pub fn label_shape_bb(input: &BbInput, o: &Opts, obs: &mut Obs) -> (usize, usize
     (max_sections, depth)
 }
 
+/// one chromosome with `n` overlapping entries, `ips` items per slot
+pub fn big_case(n: usize, ips: u32) -> Case {
+    let mut entries = Vec::with_capacity(n);
+    for i in 0..n as u32 {
+        entries.push(BbEntry { s: i * 3, e: i * 3 + 1 + (i % 7), rest: if i % 4 == 0 { String::new() } else { format!("n{}\t{}", i, i % 11) } });
+    }
+    let mut opts = Opts::default();
+    opts.items_per_slot = ips;
+    opts.threads = 3;
+    Case {
+        input: BbInput { chroms: vec![BbChrom { name: "chrBig".into(), size: n as u32 * 3 + 20, entries }], unused: vec![], autosql: None },
+        opts,
+        k2_nudged: 0,
+        delay: None,
+    }
+}
+
 impl Prop for C02 {
     type Case = Case;
     const ID: &'static str = "C02";
@@ -184,6 +201,10 @@ impl Prop for C02 {
     }
     fn cases(tier: Tier) -> u64 {
         tier.pick(15_000, 60_000)
+    }
+    fn fixed_cases(_tier: Tier) -> Vec<Case> {
+        // the upper end of the items_per_slot range: one full section, one item more, two sections
+        vec![big_case(65_535, 65535), big_case(65_536, 65535), big_case(70_000, 65535)]
     }
     fn strategy(tier: Tier) -> BoxedStrategy<Case> {
         prop_oneof![
